@@ -146,7 +146,47 @@ def case_url(acc, rname, w, other_backend_observation):
                  msg="%s(%r): %s backend gives %r, the other backend %r" % (rname, w, impl.backend, mine, other_backend_observation))
 
 
-CASES = {"call": case_call, "boundary": case_boundary, "argkind": case_argkind, "url": case_url}
+def case_sequence(acc, kind, name, w1, w2):
+    """Two consecutive calls on the SAME (long-lived, module-level style) instance: the second result must not depend on the
+    first call - in either implementation - and the implementations must still agree."""
+    kw = (impl.QUOTER_CONFIGS if kind == "q" else impl.UNQUOTER_CONFIGS)[name]
+    c, p = pair(kind, name)
+    cls = (impl.qp._Quoter if kind == "q" else impl.qp._Unquoter)
+    acc.evals += 1
+    alone = outcome(cls(**kw), w2)
+    outcome(c, w1)
+    a = outcome(c, w2)
+    outcome(p, w1)
+    b = outcome(p, w2)
+    if a[0] == "exc" or a[1] != w2:
+        acc.nontrivial += 1
+    if not (a == b == alone):
+        acc.viol("sequence", (kind, name, w1, w2), observed={"compiled_after_w1": a, "python_after_w1": b}, expected={"python_fresh_instance": alone},
+                 msg="%s %s: after a call with %r, the call with %r gives compiled %r / python %r; a fresh instance gives %r" % (kind, name, w1, w2, a, b, alone))
+        # leave no state behind for the next case
+        _pairs.pop((kind, name), None)
+    return a
+
+
+CASES = {"call": case_call, "boundary": case_boundary, "argkind": case_argkind, "url": case_url, "sequence": case_sequence}
+
+SEQ_ALPHA = {"u": ["%41", "%2F", "%25", "%C3", "%A9", "%E2", "%82", "%AC", "%F0", "%9F", "%FF", "%", "%4", "a", "+", "é"],
+             "q": ["%41", "%2f", "%C3", "%A9", "%", "%4", "%zz", "a", " ", "é", "\ud800", "+", "/"]}
+
+
+def task_sequences(kind, name, maxlen, part, nparts):
+    acc = Acc(ID, "c")
+    ws = list(A.words(SEQ_ALPHA[kind], maxlen))
+    states = set()
+    for i, w1 in enumerate(ws):
+        if i % nparts != part:
+            continue
+        for w2 in ws:
+            r = case_sequence(acc, kind, name, w1, w2)
+            states.add(r)
+    acc.state_count = len(states)
+    acc.sample({"kind": kind, "config": name, "first_call": w1, "second_call": w2}, 1)
+    return acc.result()
 
 
 def task_url_digest(rname, spname, part, nparts, detail):
@@ -288,6 +328,11 @@ def plan(ctx):
             for sh in A.shard_prefixes(ALPHAS[alpha], k, depth):
                 tasks.append((M, "task_words", ("u", name, alpha, k, sh), "c", "w"))
     tasks.append((M, "task_argkinds", (), "c", "k"))
+    # consecutive calls on one instance (the library's quoters are module-level singletons)
+    for kind, cfgs in (("u", u), ("q", q)):
+        for name in cfgs:
+            for part in range(2):
+                tasks.append((M, "task_sequences", (kind, name, 2, part, 2), "c", "s"))
     # URL level: the same routed calls on both backends, compared through per-shard digests (finish() resolves differences)
     from vlib import routes
     url_spaces = [("F1", 1), ("X2", 2)] + ([] if quick else [("K3", 4)])
